@@ -665,7 +665,7 @@ func (e *Env) pureCall(pf *PureFunc, x SCall) SVal {
 		for i, d := range pf.Params {
 			vars[d.Name] = args[i]
 		}
-		ne := &Env{p: e.p, pkg: pe.pkg, vars: vars, cur: e.cur, old: nil, depth: e.depth + 1, probing: e.probing}
+		ne := &Env{p: e.p, pkg: pe.pkg, vars: vars, cur: e.cur, old: e.old, depth: e.depth + 1, probing: e.probing}
 		r := ne.elab(pf.Body)
 		r.T = coerce(r.T, sortOf(retTyp))
 		r.Typ = retTyp
